@@ -214,6 +214,17 @@ validator plain_{idx} {{
     fail
   }}
 }}
+
+// the same validator name in every validator module: only the module name tells them apart
+validator main(threshold: Int) {{
+  withdraw(redeemer: List<Int>, _c: Data, _self: Data) {{
+    shared.sum(redeemer) + {idx} > threshold
+  }}
+
+  else(_) {{
+    fail
+  }}
+}}
 '''
 
 
@@ -231,7 +242,7 @@ def generated_project(rng: Rng, n: int, modules=4, unit=6, prop=3, failing=True,
     files = {"aiken.toml": TOML.format(n=n, plutus=plutus), "lib/fz.ak": FUZZ_LIB, "lib/shared.ak": shared_module(rng, n + 2)}
     for i in range(modules):
         files[f"lib/tests_{i}.ak"] = tests_module(rng, i, unit, prop, failing)
-    for i in range(2):
+    for i in range(3):
         files[f"validators/v{i}.ak"] = validators_module(rng, i)
     return files
 
